@@ -268,8 +268,14 @@ func run(e *core.Env) {
 
 	// Router address and table configuration.
 	selfID := ident.Get(ident.Routable, tp.Intn(8))
-	w.self = selfID.IP
 	custom := tp.Chance(1, 2)
+	if !custom && tp.Chance(1, 3) {
+		// a router whose country prefix begins at the first address of its region: the base
+		// address of the region bucket then lies inside the router's own prefix
+		selfID = ident.Get(ident.RegionStart, tp.Intn(3))
+		e.Probe("own_prefix_at_the_start_of_its_region")
+	}
+	w.self = selfID.IP
 	selfBytes := w.self.As16()
 	var prefixes [][]byte
 	if custom {
@@ -304,6 +310,7 @@ func run(e *core.Env) {
 			{selfBytes[0], selfBytes[1] & 0xf0},                      // own continent, region 0
 			{cp[0], cp[1], cp[2], cp[3]},                             // own country prefix base
 			{0xfd, 0x31}, {0xfd, 0x00, 0x12}, {0xfd, 0x0f},           // other continent, roaming, experiments
+			{selfBytes[0], selfBytes[1], 0xff}, {selfBytes[0], selfBytes[1], 0x80}, // own region, far end
 		}
 		e.Probe("config_shipped")
 	}
@@ -324,6 +331,14 @@ func run(e *core.Env) {
 		prefixes = [][]byte{{0xfd, 0x12}}
 		nDst = 2*w.cfg.RoutablePrefixes[1].EntriesPerPrefix + 2 + tp.Intn(3)
 		e.Probe("one_prefix_saturated")
+	}
+	// The shipped limits (32 per foreign continent / special region, 64 per region of the own
+	// continent) are only reached when many destinations share one routing prefix.
+	crowded := !custom && tp.Chance(1, 4)
+	if crowded {
+		prefixes = [][]byte{prefixes[tp.Intn(len(prefixes))]}
+		nDst = 40 + tp.Intn(110)
+		e.Probe("one_shipped_prefix_crowded")
 	}
 	seen := map[netip.Addr]bool{w.self: true}
 	for k := uint32(0); len(w.dests) < nDst; k++ {
@@ -350,6 +365,11 @@ func run(e *core.Env) {
 	if saturate {
 		nOps = 60 + tp.Intn(120)
 		weights = []int{40, 1, 0, 0, 1, 1}
+	}
+	if crowded {
+		// almost nothing but additions and cleanups: the table has to fill up
+		nOps = 250 + tp.Intn(500)
+		weights = []int{60, 1, 1, 1, 4, 0}
 	}
 	for op := 0; op < nOps; op++ {
 		e.Step()
@@ -521,6 +541,7 @@ func run(e *core.Env) {
 			e.Ev("clean", uint64(len(before)), uint64(len(after)))
 			now := time.Now()
 			gossipPerPrefix := map[netip.Prefix]int{}
+			limitOf := map[netip.Prefix]int{}
 			for i := range after {
 				en := &after[i]
 				if en.Source != m.RouteSourcePeer && en.Expires.Before(now) {
@@ -528,11 +549,16 @@ func run(e *core.Env) {
 				}
 				if en.Source == m.RouteSourceGossip {
 					gossipPerPrefix[en.RoutingPrefix]++
+					// the limit of a bucket is the one of the configuration its destinations
+					// fall under (not of whatever configuration the bucket's base address is in)
+					if rp, ok := w.rp(en.DstIP); ok {
+						limitOf[en.RoutingPrefix] = rp.EntriesPerPrefix
+					}
 				}
 			}
 			for pfx, cnt := range gossipPerPrefix {
-				if rp, ok := w.rp(pfx.Addr()); ok && cnt > rp.EntriesPerPrefix {
-					w.fail("gossip-over-limit-after-clean", "prefix %s holds %d gossip routes right after Clean, limit %d", pfx, cnt, rp.EntriesPerPrefix)
+				if lim, ok := limitOf[pfx]; ok && cnt > lim {
+					w.fail("gossip-over-limit-after-clean", "prefix %s holds %d gossip routes right after Clean, limit %d", pfx, cnt, lim)
 				}
 			}
 			if len(after) < len(before) {
